@@ -19,6 +19,7 @@
 #include <string.h>
 #include <dirent.h>
 #include <unistd.h>
+#include <time.h>
 #include <myth/myth.h>
 #include "myth_verif.h"
 
@@ -56,9 +57,13 @@ static void * reporter(void * a) {
 static volatile int spin_flag;
 static void * spinner(void * a) {
   (void)a;
-  /* keep this worker busy (yielding) until the creator has been resumed somewhere */
-  long i = 0;
-  while (!spin_flag && i++ < 2000000) myth_yield();
+  /* occupy this worker WITHOUT yielding (at most ~2 ms) so that the creator's continuation, which
+     sits in this worker's queue (child first), can only go on by being stolen by another worker */
+  struct timespec t0, t1; clock_gettime(CLOCK_MONOTONIC, &t0);
+  while (!spin_flag) {
+    clock_gettime(CLOCK_MONOTONIC, &t1);
+    if ((t1.tv_sec - t0.tv_sec) * 1000000000L + (t1.tv_nsec - t0.tv_nsec) > 2000000L) break;
+  }
   return 0;
 }
 
@@ -111,7 +116,7 @@ int main(void) {
       free(r); free(th);
     } else if (!strcmp(op, "migrate")) {
       int tries = 0, nw = myth_get_num_workers();
-      while (nw > 1 && myth_get_worker_num() == 0 && tries < 200) {
+      while (nw > 1 && myth_get_worker_num() == 0 && tries < 500) {
         spin_flag = 0;
         myth_thread_t th = myth_create(spinner, 0);   /* child first: our continuation is stealable */
         spin_flag = 1;
